@@ -49,6 +49,13 @@ Orphan ==
      tr |-> << <<Tr("x", 0, 2), Tr("y", 0, 3)>>, <<Tr("", 1, 3), Tr("", 1, 2)>>, <<Tr("", 1, 3)>>,
                <<Tr("", 1, 5)>>, <<Tr("u", 0, 3), Tr("v", 0, 2)>> >>, final |-> <<3>>]
 
+\* two parameter variants of one board: same states, same transitions at the Player 2 state,
+\* different probabilities downstream (so a different reachability-minimising action)
+Variant(pa, pb) ==
+    [n |-> 5, owner |-> <<P2, PR, PR, PR, PR>>, reward |-> <<0, 2, 5, 0, 0>>,
+     tr |-> << <<Tr("a", 0, 2), Tr("b", 0, 3)>>, <<Tr("", pa, 5), Tr("", 4 - pa, 4)>>,
+               <<Tr("", pb, 5), Tr("", 4 - pb, 4)>>, <<Tr("", 1, 4)>>, <<Tr("", 1, 5)>> >>, final |-> <<5>>]
+
 Pool == << [kind |-> "ok",        tg |-> Tagged(Simple)],
            [kind |-> "ok",        tg |-> Tagged(Orphan)],
            [kind |-> "ok",        tg |-> Tiny13b],
@@ -58,7 +65,9 @@ Pool == << [kind |-> "ok",        tg |-> Tagged(Simple)],
            [kind |-> "okdead",    tg |-> Tagged(DeadHeavy)],
            [kind |-> "nosol",     tg |-> Tagged(Unsolvable)],
            [kind |-> "malformed", tg |-> SetSlot(Tagged(Fig55), 4, 2, 2, PInt(7))],
-           [kind |-> "malformed", tg |-> SetRow(Tagged(Simple), 2, PNone)] >>
+           [kind |-> "malformed", tg |-> SetRow(Tagged(Simple), 2, PNone)],
+           \* successor index exactly n (one past the last state) on a state that is swept
+           [kind |-> "malformed", tg |-> SetSlot(Tagged(Simple), 1, 1, 2, PInt(3))] >>
 
 NameSets == { <<"game_a", "game_b", "game_c">>, <<"g1", "x_2", "robot_40_w5">>,
               <<"b", "a", "a_b_1">> }
@@ -77,13 +86,17 @@ Collision == << [name |-> "x", kind |-> "ok", tg |-> Tagged(Simple)],
                 [name |-> "x_no_prune", kind |-> "okdead", tg |-> Tagged(DeadHeavy)] >>
 
 \* always included: games that share their graph but not their goal, in both orders
-Twins == { << [name |-> "to4", kind |-> "ok", tg |-> Tagged(TwinA)], [name |-> "to3", kind |-> "ok", tg |-> Tagged(TwinB)] >>,
+Twins == { << [name |-> "v13", kind |-> "ok", tg |-> Tagged(Variant(1, 3))], [name |-> "v31", kind |-> "ok", tg |-> Tagged(Variant(3, 1))] >>,
+           << [name |-> "v31", kind |-> "ok", tg |-> Tagged(Variant(3, 1))], [name |-> "simple", kind |-> "ok", tg |-> Tagged(Simple)],
+              [name |-> "v13", kind |-> "ok", tg |-> Tagged(Variant(1, 3))] >>,
+           << [name |-> "to4", kind |-> "ok", tg |-> Tagged(TwinA)], [name |-> "to3", kind |-> "ok", tg |-> Tagged(TwinB)] >>,
            << [name |-> "to3", kind |-> "ok", tg |-> Tagged(TwinB)], [name |-> "to4", kind |-> "ok", tg |-> Tagged(TwinA)] >> }
 
 BatchCases ==
     LET base == (IF Family = "all" THEN AllDicts ELSE RandomSubset(K, AllDicts)) \cup Twins
         q == SetToSeq(base)
-    IN  [i \in 1..(Len(q) + 1) |->
+    IN  [i \in 1..(Len(q) + 3) |->
+            IF i > Len(q) + 1 THEN [games |-> <<>>, file |-> IF i = Len(q) + 2 THEN "empty_0" ELSE "no_games_yet"] ELSE
             IF i <= Len(q) THEN [games |-> q[i], file |-> FileStems[1 + (i % Len(FileStems))] \o ToString(i % 7)
                                                              \o FileTails[1 + (i % Len(FileTails))]]
             ELSE [games |-> Collision, file |-> "collision_1"]]
